@@ -17,6 +17,14 @@ QLabelV(Vs, c, g, a, ki, ko, m) ==
       sk == MapThenSumSet(LAMBDA ij : ki[ij[1]] * ko[ij[2]], same)
   IN  R(m * sa * g[2] - g[1] * sk, m * m * g[2])
 
+\* one layer of a multiplex graph, layer weight w: the documentation's
+\*   Q_layer = w SUM_{ij} [ a_ij - gamma ki_i ko_j / m ] delta(c_i, c_j)     (not divided by m)
+QLayerV(Vs, c, w, g, a, ki, ko, m) ==
+  LET same == {ij \in Vs \X Vs : c[ij[1]] = c[ij[2]]}
+      sa == MapThenSumSet(LAMBDA ij : a[ij[1], ij[2]], same)
+      sk == MapThenSumSet(LAMBDA ij : ki[ij[1]] * ko[ij[2]], same)
+  IN  R(w * (m * sa * g[2] - g[1] * sk), m * g[2])
+
 \* the same quantity summed community by community; P is a set of node sets
 QComm(P, g, a, ki, ko, m) ==
   RSumF([S \in P |->
